@@ -73,13 +73,45 @@ theorem initConsoleUser_cstep (S : Scripts) (rh : HookFn) (hrh : HookOK rh) (w :
   · rename_i hn; rw [hn] at hi; simp at hi
   · exact CStep.trans (newInteractive_cstep w true 0) (afterConnect_cstep S rh hrh _)
 
-theorem userData_step (w : W) (id : Nat) (telnet : Bool) (text : String) : Step w (userData w id telnet text) := by
+theorem snoopHook_step (rh : HookFn) (hrh : HookOK rh) (w : W) (id : Nat) : Step w (snoopHook rh w id) := by
+  unfold snoopHook
+  split
+  · exact Step.refl w
+  · split
+    · exact Step.refl w
+    · exact Step.bracket (Step.trans (emit_same _ _).step (hrh _ _ _))
+
+theorem echoLoop_step (rh : HookFn) (hrh : HookOK rh) : ∀ (n : Nat) (w : W) (id : Nat) (ob : Oid),
+    Step w (echoLoop rh n w id ob) := by
+  intro n
+  induction n with
+  | zero => intro w id ob; exact Step.refl w
+  | succ n ih =>
+    intro w id ob
+    unfold echoLoop
+    simp only []
+    have h1 : Step w (snoopHook rh (addOut w ob "|") id) := Step.trans (addOut_step _ _ _) (snoopHook_step rh hrh _ _)
+    split
+    · exact h1
+    · exact Step.trans h1 (ih _ _ _)
+
+theorem userData_step (rh : HookFn) (hrh : HookOK rh) (w : W) (id : Nat) (telnet : Bool) (text : String) :
+    Step w (userData rh w id telnet text) := by
   unfold userData
   split
   · exact Step.refl w
-  · simp only []
+  · rename_i c _
+    simp only []
     split
-    · exact Step.trans (mapConn_step w id (bufferText _ _) (fun _ => rfl) (fun _ h => h)) (addOut_step _ _ _)
+    · have h1 := echoLoop_step rh hrh ((splitLines c.part text).1.filter (· ≠ "")).length w id c.ob
+      split
+      · exact h1
+      · have h2 : Step w (mapConn (echoLoop rh ((splitLines c.part text).1.filter (· ≠ "")).length w id c.ob) id
+            (bufferText ((splitLines c.part text).1.filter (· ≠ "")) (splitLines c.part text).2)) :=
+          Step.trans h1 (mapConn_step _ id (bufferText _ _) (fun _ => rfl) (fun _ h => h))
+        split
+        · exact Step.trans h2 (snoopHook_step rh hrh _ _)
+        · exact h2
     · exact mapConn_step w id (bufferText _ _) (fun _ => rfl) (fun _ h => h)
 
 theorem ioEvent_cstep (S : Scripts) (rh : HookFn) (hrh : HookOK rh) (w : W) (e : IoEv)
@@ -93,7 +125,7 @@ theorem ioEvent_cstep (S : Scripts) (rh : HookFn) (hrh : HookOK rh) (w : W) (e :
     · exact CStep.refl w
     · split
       · exact CStep.refl w
-      · exact Step.toC (userData_step _ _ _ _)
+      · exact Step.toC (userData_step rh hrh _ _ _ _)
   | eof client =>
     simp only [ioEvent]
     split
@@ -132,7 +164,7 @@ theorem ioEvent_cstep (S : Scripts) (rh : HookFn) (hrh : HookOK rh) (w : W) (e :
       · exact h1
       · split
         · exact h1
-        · exact CStep.trans h1 (Step.toC (userData_step _ _ _ _))
+        · exact CStep.trans h1 (Step.toC (userData_step rh hrh _ _ _ _))
 
 theorem processIoEvents_cstep (S : Scripts) (rh : HookFn) (hrh : HookOK rh) :
     ∀ (evs : List IoEv) (w : W), (∀ t, IoEv.console t ∈ evs → w.users.isSome = true) →
